@@ -98,6 +98,8 @@ def new_dul(it, inbox=None):
     cls = ClassVal('DULStub', [obj], {'send': method(send), 'receive': method(receive)}, 'harness')
     d = Obj(cls)
     d.fields['accepted_contexts'] = None
+    # the provider's own attribute of that name is the local receive maximum, not the negotiated send limit
+    d.fields['max_pdu_length'] = it.p.fresh_int('provider_receive_maximum')
     return d
 
 
